@@ -164,6 +164,8 @@ class Module(object):
         self.digest = hashlib.sha256(raw).hexdigest()
         self.src = raw.decode("utf-8")
         self.tree = ast.parse(self.src, filename=path)
+        from .desugar import desugar
+        self.tree = desugar(self.tree)  # match / with suppress / singledispatch read as the plain statements they stand for
         # name -> list of binding records in program order
         # record: ("assign", value_node) | ("def", node) | ("class", node) |
         #         ("import", module_name, orig_name) | ("importmod", module_name)
@@ -623,8 +625,17 @@ class Repo(object):
             for v in node.values:
                 if isinstance(v, ast.Constant):
                     out.append(v.value)
-                elif isinstance(v, ast.FormattedValue) and v.format_spec is None and v.conversion == -1:
-                    out.append(str(ev(v.value)))
+                elif isinstance(v, ast.FormattedValue):
+                    val = ev(v.value)
+                    if not isinstance(val, (str, bytes, int, float, bool, type(None), tuple, list)):
+                        raise Unknown("f-string of a %s" % type(val).__name__)
+                    if v.conversion in (115, 114, 97):
+                        val = {115: str, 114: repr, 97: ascii}[v.conversion](val)
+                    spec = ev(v.format_spec) if v.format_spec is not None else ""
+                    try:
+                        out.append(format(val, spec))
+                    except Exception as e:
+                        raise Unknown("f-string format failed: %s" % e)
                 else:
                     raise Unknown("f-string")
             return "".join(out)
@@ -732,6 +743,8 @@ class Repo(object):
                 return
             g = node.generators[i]
             it = self.ceval(module, g.iter, env)
+            if not isinstance(it, (list, tuple, str, bytes, dict, set, frozenset, range)):
+                raise Unknown("iteration over a %s" % type(it).__name__)
             for x in it:
                 e2 = dict(env)
                 self._bind_target(g.target, x, e2)
